@@ -184,7 +184,7 @@ pub fn gen_config(rng: &mut Rng, o: &CfgOpts) -> Config {
                     (Form::EachCall, *rng.pick(&[Quant::Unq, Quant::Once, Quant::N(2), Quant::AtLeast(1)]))
                 };
                 let resp = if ordered { Resp::Returns } else { resp };
-                clauses.push(ClauseSpec { m: *m, form, patterns: vec![PatternSpec { pred, has_matcher: true, segs: vec![Seg { resp, quant }] }] });
+                clauses.push(ClauseSpec { m: *m, form, patterns: vec![PatternSpec { pred, has_matcher: true, macro_form: false, segs: vec![Seg { resp, quant }] }] });
                 left -= 1;
             } else if ordered {
                 let pred = gen_pred(rng, m.domain(), &preds);
@@ -194,7 +194,7 @@ pub fn gen_config(rng: &mut Rng, o: &CfgOpts) -> Config {
                     form: Form::NextCall,
                     patterns: vec![PatternSpec {
                         pred,
-                        has_matcher: true,
+                        has_matcher: true, macro_form: false,
                         segs: gen_segs(rng, o, true, true, &callable),
                     }],
                 });
@@ -209,7 +209,7 @@ pub fn gen_config(rng: &mut Rng, o: &CfgOpts) -> Config {
                             form: Form::SomeCall,
                             patterns: vec![PatternSpec {
                                 pred,
-                                has_matcher: true,
+                                has_matcher: true, macro_form: false,
                                 segs: gen_segs(rng, o, false, true, &callable),
                             }],
                         });
@@ -223,7 +223,7 @@ pub fn gen_config(rng: &mut Rng, o: &CfgOpts) -> Config {
                             form: Form::EachCall,
                             patterns: vec![PatternSpec {
                                 pred,
-                                has_matcher: true,
+                                has_matcher: true, macro_form: false,
                                 segs: gen_segs(rng, o, false, true, &callable),
                             }],
                         });
@@ -242,7 +242,7 @@ pub fn gen_config(rng: &mut Rng, o: &CfgOpts) -> Config {
                             };
                             patterns.push(PatternSpec {
                                 pred,
-                                has_matcher: true,
+                                has_matcher: true, macro_form: false,
                                 segs,
                             });
                         }
@@ -271,6 +271,22 @@ pub fn gen_config(rng: &mut Rng, o: &CfgOpts) -> Config {
         let i = *rng.pick(&avail);
         clauses.push(per_method[i][cursors[i]].clone());
         cursors[i] += 1;
+    }
+    // a share of the matchers is written with the real `matching!` macro
+    if rng.chance(1, 2) {
+        for c in clauses.iter_mut() {
+            if !matches!(c.m, M::A0 | M::A1 | M::B0 | M::B1 | M::B3 | M::B2 | M::S0 | M::S1 | M::S2) {
+                continue;
+            }
+            for p in c.patterns.iter_mut() {
+                if rng.chance(1, 3) {
+                    if c.m.info().two_args {
+                        p.pred = *rng.pick(crate::build::MACRO_PREDS_2);
+                    }
+                    p.macro_form = true;
+                }
+            }
+        }
     }
     let mut real_progs = vec![];
     let mut default_progs = vec![];
